@@ -10,6 +10,7 @@ import apistream
 import apimodel
 import specgen
 
+EXTRA_COQ_FILES = ('GenFacts/SitesOK.v',)
 RULE = ('[plus windows reaching outside the data (to_idx beyond the rows, negative from_idx): refused, or the rows arr[a:b] selects] frames of 1..4 channels (8 dtypes, scalar or 2-D, with or without a cast dtype incl. narrowing integer casts of out-of-range values), rows 1..10; for each: 4 source kinds x all windows (from, to) incl. open end x '
         'input chunk {None,1,2,3,7} (sampled in quick, exhaustive windows in thorough) x permutation of source fields / datasets x '
         'extra unused datasets x dataset_name mapping. Distinct by (frame index, kind, window, chunk).')
